@@ -496,7 +496,9 @@ def shard(args):
     thorough = tier == "thorough"
     acc = Acc(seed=seed, sample_stride=997)
     env = Env()
-    cdir = curtsies_dir()
+    # asynchronous points: every function entry / C-function return executed while the body runs inside the context, in ANY module
+    # (a signal handler can run inside the functions curtsies calls - blessed, logging - just as well as in curtsies' own frames)
+    cdir = "/"
     name, factory, kind = contexts()[ci_idx]
     cfg = dict(configs_for(kind, thorough)[cfg_idx], context=name)
     ops = ops_for(kind)
@@ -531,7 +533,7 @@ def shard(args):
             n, fails, outcome = execute(env, cfg, factory, kind, body, ("count",), cdir)
             record(body, ("count",), fails, outcome)
             points = list(range(1, (n or 0) + 1))
-            if len(points) > 400:
+            if len(points) > 700:
                 # a body with thousands of points (a multi-kilobyte paste: one generator step per byte): all of the first 60,
                 # then every 97th, and the last 12
                 points = points[:60] + points[60:-12:97] + points[-12:]
